@@ -63,6 +63,10 @@ def classify(text, r):
         le = b.find(b"\n", d["start"])
         line = b[ls:le if le >= 0 else len(b)].decode("utf-8", "replace")
         at = b[d["start"]:d["start"] + 12].decode("utf-8", "replace")
+        pre = b[ls:d["start"]].decode("utf-8", "replace")
+        # an integral real with a type prefix is written REAL#100: the parser stops at the digits right after REAL# / REAL#-
+        if re.search(r"L?REAL#[-+]?\s*$", pre) and re.match(r"\s*[-+]?\d", at):
+            return "render-real-integral-as-integer"
         if re.search(r"(\(|,|^|\s|NOT|-|\.\.)- \d", line) and (at.startswith(" ") or at[:1].isdigit() or at.startswith("-")):
             return "render-negative-literal-blank"
         if re.search(r"(L?REAL)#[-+]?\d+(?![\d.])", line) and re.match(r"[-+]?\d", at.strip()):
